@@ -298,12 +298,13 @@ Example raft_monitor_offline_late_snapshot_tagged :
   model_eqb 1 monitor_demo_cmds es = true /\ trace_guard 1 monitor_demo_cmds es = false /\
   spec_okb 1 monitor_demo_cmds es = false /\ tag_of monitor_demo_cmds es = 3.
 Proof. repeat split; vm_compute; reflexivity. Qed.
-(* (b) a snapshot INSTALLED on a replica between its FSM.Snapshot and the Persist of it makes a late snapshot; restoring it and
-       replaying agrees with the model and fails the monitor *)
+(* (b) a snapshot INSTALLED on a replica between its FSM.Snapshot and the Persist of it makes a late snapshot (the second of the
+       replica's store: the installed one is the first); restoring it and replaying agrees with the model and fails the monitor.
+       (The file store would offer the installed snapshot, labelled 4, as the newest: the model lets a replica restore any.) *)
 Example raft_monitor_install_between_snapshot_and_persist_tagged :
   let cmds := [LPin (wpin 0 1); LPin (wpin 1 1); LUnpin (wpin 1 1); LPin (wpin 2 1)] in
   let es := [OCommit 0; OCommit 1; OCommit 2; OCommit 3; OApply 0 0; OApply 0 1; OApply 0 2; OApply 0 3; OSnapReq 0 true; OPersist 0;
-             OApply 1 0; OSnapReq 1 true; ORestore 1 0 0 4; OPersist 1; ORestart 1; ORestore 1 1 0 1; OApply 1 1;
+             OApply 1 0; OSnapReq 1 true; ORestore 1 0 0 4; OPersist 1; ORestart 1; ORestore 1 1 1 1; OApply 1 1;
              OObs 1 (Some [wpin 0 1; wpin 1 1; wpin 2 1])] in
   model_eqb 2 cmds es = true /\ trace_guard 2 cmds es = false /\ spec_okb 2 cmds es = false /\ tag_of cmds es = 3.
 Proof. repeat split; vm_compute; reflexivity. Qed.
